@@ -351,6 +351,9 @@ def targets(tier='quick'):
                         replay=lambda ob: {'func': 'rename_then_import', 'inputs': {'obligation': ob['name']}}))
     T.append(Target('import/bad-type', 'process_tensor.import_process_tensor', scen_import_bad, post_import_bad, RE, PROP,
                     invoke=invoke_export_import))
+    # util.create_delta on its real body: the contract the targets above assume at its call sites
+    from . import delta
+    T += delta.targets(PROP)
     return T
 
 
